@@ -28,4 +28,127 @@ pub mod tcpspec {
     pub open spec fn cookie_spec(key: [u64; 2], src: IpAddr, dst: IpAddr, sport: u16, dport: u16) -> u32 {
         (sip24(key[0], key[1], cookie_enc(src, dst, sport, dport)) % 0x1_0000_0000) as u32
     }
+    pub open spec fn p256(n: nat) -> nat decreases n { if n == 0 { 1 } else { 256 * p256((n - 1) as nat) } }
+
+    /*PROVED_IN:u_tcp*/ pub proof fn lemma_le_bytes_len(x: nat, n: nat)
+        ensures le_bytes(x, n).len() == n
+        decreases n
+    { if n > 0 { lemma_le_bytes_len(x / 256, (n - 1) as nat); } }
+
+    /// little-endian digits are injective on values that fit
+    /*PROVED_IN:u_tcp*/ pub proof fn lemma_le_bytes_inj(x: nat, y: nat, n: nat)
+        requires x < p256(n), y < p256(n), le_bytes(x, n) == le_bytes(y, n)
+        ensures x == y
+        decreases n
+    {
+        if n == 0 { } else {
+            let a = le_bytes(x, n); let b = le_bytes(y, n);
+            lemma_le_bytes_len(x / 256, (n - 1) as nat); lemma_le_bytes_len(y / 256, (n - 1) as nat);
+            assert(a[0] == (x % 256) as u8); assert(b[0] == (y % 256) as u8);
+            assert(a.subrange(1, a.len() as int) =~= le_bytes(x / 256, (n - 1) as nat));
+            assert(b.subrange(1, b.len() as int) =~= le_bytes(y / 256, (n - 1) as nat));
+            assert(x / 256 < p256((n - 1) as nat)) by(nonlinear_arith) requires x < 256 * p256((n - 1) as nat);
+            assert(y / 256 < p256((n - 1) as nat)) by(nonlinear_arith) requires y < 256 * p256((n - 1) as nat);
+            lemma_le_bytes_inj(x / 256, y / 256, (n - 1) as nat);
+            assert(x % 256 == y % 256);
+            assert(x == 256 * (x / 256) + x % 256); assert(y == 256 * (y / 256) + y % 256);
+        }
+    }
+    /*PROVED_IN:u_tcp*/ pub proof fn lemma_be_val_bound(b: Seq<u8>)
+        ensures be_val(b) < p256(b.len())
+        decreases b.len()
+    {
+        if b.len() > 0 {
+            lemma_be_val_bound(b.drop_last());
+            assert(be_val(b.drop_last()) * 256 + (b.last() as nat) < 256 * p256((b.len() - 1) as nat)) by(nonlinear_arith)
+                requires be_val(b.drop_last()) < p256((b.len() - 1) as nat), (b.last() as nat) < 256;
+        }
+    }
+    /*PROVED_IN:u_tcp*/ pub proof fn lemma_be_val_inj(a: Seq<u8>, b: Seq<u8>)
+        requires a.len() == b.len(), be_val(a) == be_val(b)
+        ensures a == b
+        decreases a.len()
+    {
+        if a.len() > 0 {
+            let x = be_val(a.drop_last()); let y = be_val(b.drop_last());
+            assert(x * 256 + a.last() as nat == y * 256 + b.last() as nat);
+            assert(x == y && a.last() == b.last()) by(nonlinear_arith)
+                requires x * 256 + a.last() as nat == y * 256 + b.last() as nat, (a.last() as nat) < 256, (b.last() as nat) < 256;
+            lemma_be_val_inj(a.drop_last(), b.drop_last());
+            assert(a =~= a.drop_last().push(a.last())); assert(b =~= b.drop_last().push(b.last()));
+        } else { assert(a =~= b); }
+    }
+    /// the address/port fields of the hashed string can be read back: 4 fixed-width blocks
+    /*PROVED_IN:u_tcp*/ pub proof fn lemma_concat4_inj(a1: Seq<u8>, b1: Seq<u8>, c1: Seq<u8>, d1: Seq<u8>, a2: Seq<u8>, b2: Seq<u8>, c2: Seq<u8>, d2: Seq<u8>)
+        requires a1.len() == a2.len(), b1.len() == b2.len(), c1.len() == c2.len(), d1.len() == d2.len(), a1 + b1 + c1 + d1 == a2 + b2 + c2 + d2
+        ensures a1 == a2, b1 == b2, c1 == c2, d1 == d2
+    {
+        let s1 = a1 + b1 + c1 + d1; let s2 = a2 + b2 + c2 + d2;
+        let la = a1.len() as int; let lb = b1.len() as int; let lc = c1.len() as int; let ld = d1.len() as int;
+        assert(s1.subrange(0, la) =~= a1); assert(s2.subrange(0, la) =~= a2);
+        assert(s1.subrange(la, la + lb) =~= b1); assert(s2.subrange(la, la + lb) =~= b2);
+        assert(s1.subrange(la + lb, la + lb + lc) =~= c1); assert(s2.subrange(la + lb, la + lb + lc) =~= c2);
+        assert(s1.subrange(la + lb + lc, la + lb + lc + ld) =~= d1); assert(s2.subrange(la + lb + lc, la + lb + lc + ld) =~= d2);
+    }
+
+
+    /// C06 (statement: "the cookie depends only on the 4-tuple"; converse direction used by C07/C08's A_inj
+    /// discussion): the string hashed for the cookie determines the 4-tuple, i.e. two distinct flows of the same
+    /// address family are never hashed as the same string; a cookie collision is a SipHash collision (mod 2^32).
+    /*PROVED_IN:u_tcp*/ pub proof fn lemma_cookie_enc_injective(s1: IpAddr, d1: IpAddr, sp1: u16, dp1: u16, s2: IpAddr, d2: IpAddr, sp2: u16, dp2: u16)
+        requires same_family(s1, d1), same_family(s2, d2), cookie_enc(s1, d1, sp1, dp1) == cookie_enc(s2, d2, sp2, dp2)
+        ensures s1 == s2, d1 == d2, sp1 == sp2, dp1 == dp2
+    {
+        broadcast use crate::shim::group_ip_axioms;
+        reveal_with_fuel(p256, 3);
+        assert(p256(2) == 65536);
+        let e1 = cookie_enc(s1, d1, sp1, dp1); let e2 = cookie_enc(s2, d2, sp2, dp2);
+        lemma_le_bytes_len(sp1 as nat, 2); lemma_le_bytes_len(dp1 as nat, 2); lemma_le_bytes_len(sp2 as nat, 2); lemma_le_bytes_len(dp2 as nat, 2);
+        match (s1, d1) {
+            (IpAddr::V4(a1), IpAddr::V4(b1)) => {
+                lemma_le_bytes_len(be_val(ip4_octets(a1)), 4); lemma_le_bytes_len(be_val(ip4_octets(b1)), 4);
+                assert(e1.len() == 12);
+                match (s2, d2) {
+                    (IpAddr::V4(a2), IpAddr::V4(b2)) => {
+                        lemma_le_bytes_len(be_val(ip4_octets(a2)), 4); lemma_le_bytes_len(be_val(ip4_octets(b2)), 4);
+                        lemma_concat4_inj(le_bytes(be_val(ip4_octets(a1)), 4), le_bytes(be_val(ip4_octets(b1)), 4), le_bytes(sp1 as nat, 2), le_bytes(dp1 as nat, 2),
+                                          le_bytes(be_val(ip4_octets(a2)), 4), le_bytes(be_val(ip4_octets(b2)), 4), le_bytes(sp2 as nat, 2), le_bytes(dp2 as nat, 2));
+                        lemma_be_val_bound(ip4_octets(a1)); lemma_be_val_bound(ip4_octets(a2)); lemma_be_val_bound(ip4_octets(b1)); lemma_be_val_bound(ip4_octets(b2));
+                        lemma_le_bytes_inj(be_val(ip4_octets(a1)), be_val(ip4_octets(a2)), 4); lemma_le_bytes_inj(be_val(ip4_octets(b1)), be_val(ip4_octets(b2)), 4);
+                        lemma_be_val_inj(ip4_octets(a1), ip4_octets(a2)); lemma_be_val_inj(ip4_octets(b1), ip4_octets(b2));
+                        assert(ip4_from(ip4_octets(a1)) == a1 && ip4_from(ip4_octets(a2)) == a2 && ip4_from(ip4_octets(b1)) == b1 && ip4_from(ip4_octets(b2)) == b2);
+                        lemma_le_bytes_inj(sp1 as nat, sp2 as nat, 2); lemma_le_bytes_inj(dp1 as nat, dp2 as nat, 2);
+                    }
+                    (IpAddr::V6(a2), IpAddr::V6(b2)) => {
+                        lemma_le_bytes_len(be_val(ip6_octets(a2)), 16); lemma_le_bytes_len(be_val(ip6_octets(b2)), 16);
+                        assert(e2.len() == 36);
+                    }
+                    _ => {}
+                }
+            }
+            (IpAddr::V6(a1), IpAddr::V6(b1)) => {
+                lemma_le_bytes_len(be_val(ip6_octets(a1)), 16); lemma_le_bytes_len(be_val(ip6_octets(b1)), 16);
+                assert(e1.len() == 36);
+                match (s2, d2) {
+                    (IpAddr::V6(a2), IpAddr::V6(b2)) => {
+                        lemma_le_bytes_len(be_val(ip6_octets(a2)), 16); lemma_le_bytes_len(be_val(ip6_octets(b2)), 16);
+                        lemma_concat4_inj(le_bytes(be_val(ip6_octets(a1)), 16), le_bytes(be_val(ip6_octets(b1)), 16), le_bytes(sp1 as nat, 2), le_bytes(dp1 as nat, 2),
+                                          le_bytes(be_val(ip6_octets(a2)), 16), le_bytes(be_val(ip6_octets(b2)), 16), le_bytes(sp2 as nat, 2), le_bytes(dp2 as nat, 2));
+                        lemma_be_val_bound(ip6_octets(a1)); lemma_be_val_bound(ip6_octets(a2)); lemma_be_val_bound(ip6_octets(b1)); lemma_be_val_bound(ip6_octets(b2));
+                        lemma_le_bytes_inj(be_val(ip6_octets(a1)), be_val(ip6_octets(a2)), 16); lemma_le_bytes_inj(be_val(ip6_octets(b1)), be_val(ip6_octets(b2)), 16);
+                        lemma_be_val_inj(ip6_octets(a1), ip6_octets(a2)); lemma_be_val_inj(ip6_octets(b1), ip6_octets(b2));
+                        assert(ip6_from(ip6_octets(a1)) == a1 && ip6_from(ip6_octets(a2)) == a2 && ip6_from(ip6_octets(b1)) == b1 && ip6_from(ip6_octets(b2)) == b2);
+                        lemma_le_bytes_inj(sp1 as nat, sp2 as nat, 2); lemma_le_bytes_inj(dp1 as nat, dp2 as nat, 2);
+                    }
+                    (IpAddr::V4(a2), IpAddr::V4(b2)) => {
+                        lemma_le_bytes_len(be_val(ip4_octets(a2)), 4); lemma_le_bytes_len(be_val(ip4_octets(b2)), 4);
+                        assert(e2.len() == 12);
+                    }
+                    _ => {}
+                }
+            }
+            _ => {}
+        }
+    }
+
 }
